@@ -5,6 +5,7 @@ import GeosModel.Proofs.Kernel.Parity
 import GeosModel.Proofs.Kernel.DDGrid
 import GeosModel.Proofs.Kernel.CCWTriangle
 import GeosModel.Proofs.Kernel.PolyLocateCorrect
+import GeosModel.Proofs.Kernel.IndexedLocateCorrect
 /-!
 # C07 — orientation, point-in-ring and segment intersection are exact on grid inputs
 
@@ -215,6 +216,32 @@ example :
     (∀ r ∈ [shell, tri, sq], Closed r) ∧ PolyLocate.envContains tri ⟨13, 13⟩ = true ∧
     locateInRing ⟨13, 13⟩ tri = .exterior ∧ locateInRing ⟨13, 13⟩ sq = .interior ∧
     PolyLocate.locatePointInPolygon ⟨13, 13⟩ [shell, tri, sq] = .exterior := by decide
+
+/-- **indexed_locate_correct**: the ported `IndexedPointInAreaLocator::locate` — every ring segment whose y-range
+contains `p.y`, fed to one `RayCrossingCounter` in *any* order the interval index happens to visit them, no early
+exit — equals the specification for every polygon with closed rings whose holes lie in the shell and of which at
+most one contains `p`.  Ingredients proved on the way: the counter's result is invariant under permutation of the
+visit (`visit_perm`), and the interval query drops only segments that contribute nothing (`visit_filter`). -/
+theorem indexed_locate_correct (p : Pt) (shell : List Pt) (holes : List (List Pt)) (visited : List (Pt × Pt))
+    (hperm : visited.Perm ((PolyLocate.allSegs (shell :: holes)).filter (PolyLocate.inYRange p)))
+    (hc : ∀ r ∈ shell :: holes, Closed r)
+    (hin : PolyLocate.HolesInShellAt p shell holes) (hone : PolyLocate.AtMostOneHoleAt p holes) :
+    getLocation (PolyLocate.visit p visited) = locateInPolygon p (shell :: holes) :=
+  PolyLocate.locateIndexed_eq p shell holes visited hperm hc hin hone
+
+/-- the interval query is lossless: a segment whose y-range misses `p.y` changes nothing in the counter -/
+theorem interval_query_lossless (p : Pt) (es : List (Pt × Pt)) :
+    PolyLocate.visit p (es.filter (PolyLocate.inYRange p)) = PolyLocate.visit p es :=
+  PolyLocate.visit_filter p es
+
+/-- hypotheses of `indexed_locate_correct` met at a point inside the second hole of the two-hole polygon above -/
+example :
+    let shell : List Pt := [⟨0, 0⟩, ⟨20, 0⟩, ⟨20, 20⟩, ⟨0, 20⟩, ⟨0, 0⟩]
+    let tri : List Pt := [⟨2, 2⟩, ⟨2, 18⟩, ⟨18, 2⟩, ⟨2, 2⟩]
+    let sq : List Pt := [⟨12, 12⟩, ⟨14, 12⟩, ⟨14, 14⟩, ⟨12, 14⟩, ⟨12, 12⟩]
+    locateInRing ⟨13, 13⟩ shell = .interior ∧ locateInRing ⟨13, 13⟩ tri = .exterior ∧ locateInRing ⟨13, 13⟩ sq = .interior ∧
+    ([tri, sq].filter (fun h => locateInRing ⟨13, 13⟩ h == .interior)).length ≤ 1 ∧
+    PolyLocate.locateIndexed ⟨13, 13⟩ [shell, tri, sq] = .exterior := by decide
 
 /-! ## 3. segment / segment -/
 
